@@ -350,3 +350,249 @@ def parse_entry_block_bytes(b):
         if t == 0:
             break
     return out, i
+
+
+# =================================================================================================
+# Delimiter records, data records and whole log pass files
+# =================================================================================================
+LR_FILE_HEAD, LR_FILE_TAIL, LR_TAPE_HEAD, LR_TAPE_TAIL, LR_REEL_HEAD, LR_REEL_TAIL = 128, 129, 130, 131, 132, 133
+
+
+def _fix(b, n):
+    return bytes(b)[:n].ljust(n)
+
+
+def encode_file_head_tail(lr_type, name=b'GENERA.001', sub_level=b'VERIF ', version=b'1.0     ', date=b'26/10/03', max_pr=b' 1024',
+                          file_type=b'LO', other=b''):
+    """File header / trailer (LIS-79 3.2): 56 bytes after the logical record header."""
+    out = lr_header(lr_type) + _fix(name, 10) + b'  ' + _fix(sub_level, 6) + _fix(version, 8) + _fix(date, 8) + b' ' + _fix(max_pr, 5) \
+        + b'  ' + _fix(file_type, 2) + b'  ' + _fix(other, 10)
+    assert len(out) == 58
+    return out
+
+
+def encode_reel_tape_head_tail(lr_type, service=b'VERIF ', date=b'26/10/03', origin=b'GEN ', name=b'TAPE0001', cont=b'01', other=b'',
+                               comments=b'generated'):
+    out = lr_header(lr_type) + _fix(service, 6) + b' ' * 6 + _fix(date, 8) + b'  ' + _fix(origin, 4) + b'  ' + _fix(name, 8) + b'  ' \
+        + _fix(cont, 2) + b'  ' + _fix(other, 8) + b'  ' + _fix(comments, 74)
+    assert len(out) == 128
+    return out
+
+
+def word_bytes(rc, word):
+    return int(word).to_bytes(RC_SIZE[rc], 'big')
+
+
+def encode_data_record(lr_type, indirect, frames):
+    """indirect: None or (depth rep code, word).  frames: list of frames, each a list of channels, each a list of
+    (rep code, word) or raw bytes for dipmeter channels."""
+    out = bytearray(lr_header(lr_type))
+    if indirect is not None:
+        out += word_bytes(indirect[0], indirect[1])
+    for fr in frames:
+        for ch in fr:
+            if isinstance(ch, (bytes, bytearray)):
+                out += ch
+            else:
+                rc, words = ch
+                for w in words:
+                    out += word_bytes(rc, w)
+    return bytes(out)
+
+
+X_UNITS = [b'FEET', b'M   ', b'.1IN', b'INCH', b'S   ', b'MS  ']
+
+
+@st.composite
+def x_axis_specs(draw):
+    """A regular X axis whose values and spacing are exactly representable in rep codes 68 and 73."""
+    up_down = draw(st.sampled_from([1, 255, 0]))
+    spacing_mag = draw(st.sampled_from([1, 2, 5, 6, 60, 120, 0.5, 0.25, 1.5]))
+    x0 = draw(st.sampled_from([0, 100, 1000, 12000, 5000.5, 250.25, -50]))
+    return {'up_down': up_down, 'spacing': spacing_mag, 'x0': x0}
+
+
+def rc_word_for_value(rc, v):
+    """Word of a value that is exactly representable in the code (68 / 73 / 79 / 70)."""
+    if rc == 68:
+        return ref_to68(float(v))
+    if rc == 73:
+        assert v == int(v)
+        return int(v) & 0xFFFFFFFF
+    if rc == 79:
+        assert v == int(v) and -32768 <= v <= 32767
+        return int(v) & 0xFFFF
+    if rc == 70:
+        return int(v * 65536) & 0xFFFFFFFF
+    raise ValueError(rc)
+
+
+def safe_words(draw, rc, n):
+    """n raw words of a code; for code 50 the exponent is kept inside the 11 bit range the decoder implements (the rest is
+    finding C07-lis50-exponent-wrap)."""
+    bits = 8 * RC_SIZE[rc]
+    ws = draw(st.lists(st.integers(0, (1 << bits) - 1), min_size=n, max_size=n))
+    if rc == 50:
+        out = []
+        for w in ws:
+            e = (w >> 16) & 0xFFFF
+            e = e - 0x10000 if e & 0x8000 else e
+            e = max(-1024 + 40, min(1023 - 40, e % 2048 - 1024))
+            out.append(((e & 0xFFFF) << 16) | (w & 0xFFFF))
+        ws = out
+    return ws
+
+
+@st.composite
+def log_passes(draw, max_channels=6, max_frames=60, allow_dipmeter=True):
+    """One log pass: DFSR model + frames (raw words) + frames-per-record pattern."""
+    indirect = draw(st.booleans())
+    xs = draw(x_axis_specs())
+    sign = -1 if xs['up_down'] == 1 else 1
+    nch = draw(st.integers(1, max_channels))
+    dsbs = []
+    for k in range(nch):
+        if k == 0 and not indirect:
+            xrc = draw(st.sampled_from([68, 68, 73]))
+            if xrc == 73 and (xs['spacing'] != int(xs['spacing']) or xs['x0'] != int(xs['x0'])):
+                xrc = 68
+            d = draw(dsb_models(allow_dipmeter=False, codes=[xrc], max_samples=1, max_bursts=1))
+            d['mnem'] = b'DEPT'
+        else:
+            d = draw(dsb_models(allow_dipmeter=allow_dipmeter))
+            d['mnem'] = (b'C%d' % k).ljust(2) + d['mnem'][:2]
+        dsbs.append(d)
+    nframes = draw(st.one_of(st.integers(1, 12), st.integers(1, max_frames)))
+    # frames per record pattern
+    mode = draw(st.integers(0, 3))
+    if mode == 0:
+        per = [nframes]
+    elif mode in (1, 2):
+        n = draw(st.integers(1, max(1, min(nframes, 9))))
+        per = [n] * (nframes // n) + ([nframes % n] if nframes % n else [])
+    else:
+        per, left = [], nframes
+        while left > 0:
+            n = draw(st.integers(1, min(left, 7)))
+            per.append(n)
+            left -= n
+    # entry blocks
+    depth_rc = draw(st.sampled_from([68, 68, 73]))
+    if depth_rc == 73 and (xs['spacing'] != int(xs['spacing']) or xs['x0'] != int(xs['x0'])):
+        depth_rc = 68
+    units = draw(st.sampled_from(X_UNITS))
+    blocks = [{'type': 1, 'size': 1, 'rc': 66, 'value': draw(st.sampled_from([0, 0, 1]))},
+              {'type': 4, 'size': 1, 'rc': 66, 'value': xs['up_down']},
+              {'type': 12, 'size': 4, 'rc': 68, 'value': -999.25}]
+    if indirect:
+        blocks += [{'type': 8, 'size': 4, 'rc': 68, 'value': float(xs['spacing'])}, {'type': 9, 'size': 4, 'rc': 65, 'value': units},
+                   {'type': 13, 'size': 1, 'rc': 66, 'value': 1}, {'type': 14, 'size': 4, 'rc': 65, 'value': units},
+                   {'type': 15, 'size': 1, 'rc': 66, 'value': depth_rc}]
+    elif draw(st.booleans()):
+        blocks += [{'type': 8, 'size': 4, 'rc': 68, 'value': float(xs['spacing'])}, {'type': 9, 'size': 4, 'rc': 65, 'value': dsbs[0]['units']}]
+    if draw(st.booleans()):
+        blocks = blocks + draw(entry_block_models(types=[t for t in draw(st.lists(st.sampled_from([3, 5, 6, 7, 11, 16]), unique=True, max_size=4))]))
+    # frames: per channel raw words
+    frames = []
+    for f in range(nframes):
+        fr = []
+        for k, d in enumerate(dsbs):
+            if k == 0 and not indirect:
+                x = xs['x0'] + sign * xs['spacing'] * f
+                fr.append((d['rc'], [rc_word_for_value(d['rc'], x)]))
+            elif d['rc'] in (130, 234):
+                fr.append(draw(st.binary(min_size=d['size'], max_size=d['size'])))
+            else:
+                fr.append((d['rc'], safe_words(draw, d['rc'], d['samples'] * d['bursts'])))
+        frames.append(fr)
+    return {'indirect': indirect, 'xs': xs, 'depth_rc': depth_rc, 'units': units, 'blocks': blocks, 'dsbs': dsbs, 'frames': frames,
+            'per_record': per, 'data_type': blocks[0]['value']}
+
+
+def log_pass_records(lp):
+    """Logical records of a log pass: [DFSR, data record, ...] and for each data record (first frame index, frames)."""
+    sign = -1 if lp['xs']['up_down'] == 1 else 1
+    recs = [encode_dfsr_lr(lp['blocks'], lp['dsbs'])]
+    info = []
+    f = 0
+    for n in lp['per_record']:
+        ind = None
+        if lp['indirect']:
+            x = lp['xs']['x0'] + sign * lp['xs']['spacing'] * f
+            ind = (lp['depth_rc'], rc_word_for_value(lp['depth_rc'], x))
+        recs.append(encode_data_record(lp['data_type'], ind, lp['frames'][f:f + n]))
+        info.append((f, n))
+        f += n
+    return recs, info
+
+
+@st.composite
+def lis_files(draw, max_passes=3, max_frames=60, tif_options=('none', 'normal', 'reversed'), allow_dipmeter=True, tables=True):
+    """A whole LIS file model: [reel/tape header] (file header, tables, log pass, tables, file trailer)+ [tape/reel trailer]."""
+    cfg = draw(phys_cfgs(tif_options=tif_options))
+    if cfg['pr_len'] < 16:
+        cfg = dict(cfg, pr_len=16 + cfg['pr_len'])
+    items = []   # ('head'|'tail'|'table'|'misc'|'pass', payload)
+    outer = draw(st.integers(0, 2))
+    if outer == 2:
+        items.append(('delim', LR_REEL_HEAD))
+    if outer >= 1:
+        items.append(('delim', LR_TAPE_HEAD))
+    npass = draw(st.integers(1, max_passes))
+    for p in range(npass):
+        items.append(('delim', LR_FILE_HEAD))
+        if tables:
+            for _ in range(draw(st.integers(0, 2))):
+                items.append(('table', {'lr_type': draw(st.sampled_from(LR_TABLE_TYPES)), 'name': draw(st.sampled_from([b'CONS', b'TOOL', b'PRES', b'FILM', b'INPU', b'OUTP'])),
+                                        'columns': [b'MNEM', b'VALU'],
+                                        'rows': [[{'v': draw(mnems()), 'u': None}, {'v': draw(st.one_of(mnems(), st.integers(0, 1000), NICE_FLOATS)), 'u': draw(UNITS4)}]
+                                                 for _r in range(draw(st.integers(0, 3)))]}))
+            if draw(st.integers(0, 5)) == 0:
+                items.append(('misc', (232, draw(st.binary(min_size=1, max_size=40)))))
+        items.append(('pass', draw(log_passes(max_frames=max_frames, allow_dipmeter=allow_dipmeter))))
+        if tables and draw(st.integers(0, 3)) == 0:
+            items.append(('table', {'lr_type': 34, 'name': b'CONS', 'columns': [b'MNEM', b'VALU'], 'rows': []}))
+        if draw(st.integers(0, 9)) != 0:
+            items.append(('delim', LR_FILE_TAIL))
+    if outer >= 1 and draw(st.booleans()):
+        items.append(('delim', LR_TAPE_TAIL))
+        if outer == 2:
+            items.append(('delim', LR_REEL_TAIL))
+    return {'cfg': cfg, 'items': items}
+
+
+def build_lis_file(case):
+    """Returns (bytes, model) where model = {'listing': [(lr index, kind, lr type, name)], 'passes': [{'lp', 'dfsr_lr', 'data_lrs':
+    [(lr index, first frame, frames)]}], 'lr_start', 'lr_span': [(start, end)], 'phys': physical model}"""
+    lrs, listing, passes = [], [], []
+    for kind, payload in case['items']:
+        if kind == 'delim':
+            listing.append((len(lrs), 'delim', payload, None))
+            if payload in (LR_FILE_HEAD, LR_FILE_TAIL):
+                lrs.append(encode_file_head_tail(payload))
+            else:
+                lrs.append(encode_reel_tape_head_tail(payload))
+        elif kind == 'table':
+            listing.append((len(lrs), 'table', payload['lr_type'], payload['name']))
+            lrs.append(encode_table_lr(payload))
+        elif kind == 'misc':
+            listing.append((len(lrs), 'misc', payload[0], None))
+            lrs.append(lr_header(payload[0]) + payload[1])
+        else:
+            recs, info = log_pass_records(payload)
+            listing.append((len(lrs), 'pass', LR_DFSR, None))
+            p = {'lp': payload, 'dfsr_lr': len(lrs), 'data_lrs': []}
+            lrs.append(recs[0])
+            for r, (f0, n) in zip(recs[1:], info):
+                p['data_lrs'].append((len(lrs), f0, n))
+                lrs.append(r)
+            passes.append(p)
+    data, phys = encode_physical(lrs, case['cfg'])
+    spans = []
+    tif = case['cfg'].get('tif', 'none') != 'none'
+    for k, prs in enumerate(phys['prs']):
+        start = phys['lr_start'][k]
+        last = prs[-1]
+        end = last[1] + last[4]
+        spans.append((start, end))
+    return data, {'listing': listing, 'passes': passes, 'lr_start': phys['lr_start'], 'lr_span': spans, 'phys': phys, 'lrs': lrs}
